@@ -192,10 +192,15 @@ theorem emulator_accepts_sorted {sortFn : List Ev → List Ev} (hf : IsSort sort
     {evs : List Ev} (hne : evs ≠ []) (hr : OnlyRegionsUnsorted evs) (hw : WithinWindow n evs)
     (hc : ClocksSigned evs) : emuStreamAccepts (winsort sortFn n evs).out = true := by
   obtain ⟨_, h2, h3⟩ := (winsort_main hf hn hne hr hc).1 hw
-  apply stepsMonotone_of_ssorted (h2.ssorted (fun e he => hc e (h3.mem_iff.1 he)))
-  intro e he
-  have := hc e (h3.mem_iff.1 he)
-  unfold skey; simp only [this, if_true]; omega
+  have hs := h2.ssorted (fun e he => hc e (h3.mem_iff.1 he))
+  unfold emuStreamAccepts
+  cases hout : (winsort sortFn n evs).out with
+  | nil => rfl
+  | cons e l =>
+    rw [hout] at hs
+    unfold SSorted at hs
+    rw [List.pairwise_cons] at hs
+    exact stepsMonotone_of_ssorted hs.2 _ hs.1
 
 /-- **fails_loudly**, structural part: when `find_destination` finds nothing,
     `execute_sort_plan` reports an error and writes nothing … -/
